@@ -4,11 +4,13 @@ NOT_BUILT_REASON = ("check not built yet in this round (design in DESIGN.md §5)
 
 _NOTE = ("Trusted base: CPython ast of /venv/bin/python 3.12, the checker code in /verif/sa, and the "
          "source files of the installed dependencies it reads (digests in evidence). Assumes Python "
-         "semantics of the constructs it models (74 conformance cases against CPython in tools/evalconf.py; generators, "
+         "semantics of the constructs it models (92 conformance cases against CPython in tools/evalconf.py; generators, "
          "class statements, descriptor / special-method protocols included); an evaluation that outgrows 6 GB or 3000 s "
          "ends as analysis-broken (exit 2); "
          "decides only the clauses named in the level text. Every abstract input is built through the model "
          "classes' own constructors / add_relation evaluated from source and read back (<prop>-MODEL).")
+
+_PAIR = ('Every two-way combination of classes of different dimensions on one feature (structural position, name shape, decoration, attribute kind and name, role in a constraint, operator) is decided by a pairwise covering family; one writer / reader object used again after the model or the file changed, and after a failed call, gives what a fresh object gives. ')
 
 CHECKS = {
  "C03": {
@@ -114,8 +116,8 @@ CHECKS = {
            "position, n-ary chains, constraint names) JSONWriter.transform is evaluated from source into its document, "
            "JSONReader.transform / parse_json are evaluated from source on it, and the abstract models are compared "
            "field by field; a further cycle must reproduce model and text; returned value = text written (UTF-8); "
-           "parse_json agrees with transform; n-ary documents keep all operands. Not decided: interactions between "
-           "dimensions beyond the combined abstract model."),
+           "parse_json agrees with transform; n-ary documents keep all operands. " + _PAIR + "Not decided: three-way and higher "
+           "interactions between dimensions."),
   "design_ref": "DESIGN.md §5 C05", "note": _NOTE,
   "technique": "static analysis: writer/reader agreement (CODEC) by evaluating both transformation ASTs over finite abstractions of every carried dimension; virtual file system; json library applied to the evaluated document"},
  "C08": {
@@ -124,8 +126,8 @@ CHECKS = {
            "or/mutex/[a,b] group over the well-formed cardinality domain, alone and with mandatory singles; name shapes "
            "= join keys between features / tree ids / FeatureTerm operands; eight logical operators at every position; "
            "constraint names; n-ary terms) the model read back equals the one written (relations as multisets, "
-           "constraints up to REQUIRES=IMPLIES); cycles are fixpoints; returned = written (UTF-8); output well-formed. "
-           "Not decided: documents not produced by the writer (C09)."),
+           "constraints up to REQUIRES=IMPLIES); cycles are fixpoints; returned = written (UTF-8); output well-formed. " + _PAIR +
+           "Not decided: documents not produced by the writer (C09); three-way and higher interactions."),
   "design_ref": "DESIGN.md §5 C08", "note": _NOTE,
   "technique": "static analysis: writer/reader agreement (CODEC) by evaluating both transformation ASTs over finite abstractions of every carried dimension (join-key agreement, kind closure over the cardinality domain, operator vocabulary)"},
  "C07": {
@@ -134,8 +136,8 @@ CHECKS = {
            "dimension of the fragment (parents with only mandatory/optional children; single or-/alternative group "
            "incl. the root; abstract flags; name shapes; each constraint operator at every position; single-literal "
            "constraint; no constraints) the model read back equals the one written, constraints up to logical "
-           "equivalence by truth table; cycles are fixpoints; returned bytes = written bytes; output well-formed. "
-           "Not decided: documents not produced by the writer (C09)."),
+           "equivalence by truth table; cycles are fixpoints; returned bytes = written bytes; output well-formed. " + _PAIR +
+           "Not decided: documents not produced by the writer (C09); three-way and higher interactions."),
   "design_ref": "DESIGN.md §5 C07", "note": _NOTE,
   "technique": "static analysis: writer/reader agreement (CODEC) by evaluating both transformation ASTs over finite abstractions of every carried dimension; XML element stand-ins; truth-table equivalence of constraints"},
  "C01": {
@@ -148,7 +150,7 @@ CHECKS = {
            "comparison, arithmetic and two-argument aggregate operator at every position incl. nestings that need "
            "parentheses - the model read back equals the one written (constraints up to logical equivalence by truth "
            "table / identical trees); further cycles are fixpoints with byte-identical text; returned = written; UTF-8 on "
-           "both sides. Not decided: interactions between dimensions beyond the combined model."),
+           "both sides. " + _PAIR + "Not decided: three-way and higher interactions between dimensions."),
   "design_ref": "DESIGN.md §5 C01", "note": _NOTE + " The generated UVL lexer/parser of the uvl package is trusted as the grammar.",
   "technique": "static analysis: writer/reader agreement (CODEC) by evaluating both transformation ASTs over finite abstractions of every carried dimension; generated recogniser used as the grammar table between them"},
  "C04": {
@@ -170,8 +172,8 @@ CHECKS = {
            "relations per parent, integer-range and enumerated attribute domains with default and null, each of NOT AND "
            "OR IMPLIES IFF REQUIRES EXCLUDES at every position incl. nestings needing parentheses up to depth 3) the "
            "model read back equals the one written (constraints by truth table, ranges as integers); cycles are "
-           "fixpoints with identical text; returned = written (UTF-8); reader output well-formed (unary operand first). "
-           "Not decided: names outside the AFM WORD token; deeper random trees."),
+           "fixpoints with identical text; returned = written (UTF-8); reader output well-formed (unary operand first). " + _PAIR +
+           "Not decided: names outside the AFM WORD token; deeper random trees; three-way and higher interactions."),
   "design_ref": "DESIGN.md §5 C06", "note": _NOTE + " The generated AFM lexer/parser of afmparser is trusted as the grammar.",
   "technique": "static analysis: writer/reader agreement (CODEC) by evaluating both transformation ASTs over finite abstractions of every carried dimension; generated recogniser as grammar table; truth-table equivalence"},
  "C09": {
